@@ -121,7 +121,7 @@ for _n in ('ceil', 'floor', 'trunc', 'nearbyint', 'rint'):
     op(_n, 'round', C08, FPS, 'b', 'b', 'xsimd::%s(a)' % _n, S.rounding(_n))
 
 op('round', 'round', C08, FPS, 'b', 'b', 'xsimd::round(a)', S.round_spec)
-op('nearbyint_as_int', 'round', ['C08'], FPS, 'b', 'R_<{IT}>', 'xsimd::nearbyint_as_int(a)', WS.nearbyint_as_int_spec, whole=True)
+op('nearbyint_as_int', 'round', ['C08', 'C17'], FPS, 'b', 'R_<{IT}>', 'xsimd::nearbyint_as_int(a)', WS.nearbyint_as_int_spec, whole=True)
 op('is_flint', 'fp', C02, FPS, 'b', 'm', 'xsimd::is_flint(a)', S.is_flint_spec)
 op('is_even', 'fp', C02, FPS, 'b', 'm', 'xsimd::is_even(a)', S.is_even_spec)
 op('is_odd', 'fp', C02, FPS, 'b', 'm', 'xsimd::is_odd(a)', S.is_odd_spec)
@@ -302,6 +302,7 @@ for _o in list(OPS):
     _so = op('s_' + _o.name, 'scalar', C17, _o.types, _o.params.replace('b', 's').replace('m', 'k'), 's' if _o.ret == 'b' else 'bool',
              _scalarise(_o.expr), _o.spec, variants=_o.variants)
 # per-lane shift counts on scalars are the (value, count) overloads
+op('s_nearbyint_as_int', 'scalar', C17, FPS, 's', '{IT}', 'xsimd::nearbyint_as_int(s)', WS.s_nearbyint_as_int_spec, whole=True)
 op('s_clip', 'scalar', C17, ALL, 'sss', 's', 'xsimd::clip(s, t, w)', S.clip_scalar)
 op('clip', 'scalar', C17, ALL, 'bbb', 'b', 'xsimd::clip(a, b, c)', S.clip_batch)
 
